@@ -448,7 +448,24 @@ func (sh *kvShape) ancestorWalk(p *load.Program, fn *ssa.Function, pval ssa.Valu
 	if walker == nil || walker.Blocks == nil {
 		return false
 	}
-	// walker loops over path.Dir and reaches an ErrNotDir construction
+	if !isAncestorClassifier(p, walker) {
+		return false
+	}
+	// the index decreases: i = len-1 … 0 (phi with a decrement)
+	idx := ia.Index
+	if ph, ok := idx.(*ssa.Phi); ok {
+		for _, e := range ph.Edges {
+			if bo, ok := e.(*ssa.BinOp); ok && bo.Op == token.SUB && bo.X == ssa.Value(ph) {
+				return true
+			}
+		}
+	}
+	return false
+}
+
+// isAncestorClassifier: walker (or a module function it calls, two levels) walks path.Dir upwards and can answer
+// a non-directory with ErrNotDir.
+func isAncestorClassifier(p *load.Program, walker *ssa.Function) bool {
 	hasDir, hasNotDir := false, false
 	var visit func(f *ssa.Function, d int)
 	seen := map[*ssa.Function]bool{}
@@ -474,19 +491,7 @@ func (sh *kvShape) ancestorWalk(p *load.Program, fn *ssa.Function, pval ssa.Valu
 		})
 	}
 	visit(walker, 0)
-	if !hasDir || !hasNotDir {
-		return false
-	}
-	// the index decreases: i = len-1 … 0 (phi with a decrement)
-	idx := ia.Index
-	if ph, ok := idx.(*ssa.Phi); ok {
-		for _, e := range ph.Edges {
-			if bo, ok := e.(*ssa.BinOp); ok && bo.Op == token.SUB && bo.X == ssa.Value(ph) {
-				return true
-			}
-		}
-	}
-	return false
+	return hasDir && hasNotDir
 }
 
 func r03Deletes(c *core.Ctx, p *load.Program, sh *kvShape) {
